@@ -86,17 +86,20 @@ func Alt() *Decl {
 	}
 }
 
-// Num is a third declared program: a flag whose short name is a digit (legal; reachable through OPTIONS and its
-// long name, the spec grammar has no digit short options), and flags i, n, f whose folded spelling -inf / -nf reads
-// like a number, next to a valued option.
+// Num is a third declared program: flags whose short name is a digit (legal; reachable through OPTIONS and a
+// long name, the spec grammar has no digit short options; folded they read like a number: -46), flags i, n, f whose
+// folded spelling -inf / -nf reads like a number, a long name that is a strict prefix of a later one (--nan,
+// --nan-ok), next to a valued option.
 func Num() *Decl {
 	return &Decl{
 		Name: "num",
 		Opts: []OptDecl{
 			{Key: "4", Names: []string{"-4", "--ipv4"}, Flag: true},
+			{Key: "6", Names: []string{"-6"}, Flag: true},
 			{Key: "i", Names: []string{"-i"}, Flag: true},
 			{Key: "n", Names: []string{"-n", "--nan"}, Flag: true},
-			{Key: "f", Names: []string{"-f"}, Flag: true},
+			// declared after --nan, its long name extends it: neither is an abbreviation of the other
+			{Key: "f", Names: []string{"-f", "--nan-ok"}, Flag: true},
 			{Key: "p", Names: []string{"-p", "--port"}, Flag: false},
 		},
 		Args: []string{"X"},
